@@ -716,7 +716,7 @@ impl<'a> Searcher<'a> {
                                                         break;
                                                     }
 
-                                                    if let Ok(afile) = archive.by_index(i) {
+                                                    if let Ok(afile) = archive.by_index_raw(i) {
                                                         let file_info = to_file_info(&afile);
                                                         let checked = self
                                                             .check_file(&entry, &Some(file_info))?;
